@@ -252,6 +252,8 @@ def _range_ghost(v):
     return [
         # an equally spaced list and the range built from its first, last and first difference enumerate the same numbers
         ("induct", "range-equals-list", 0, n, lambda i: At(r, i) == At(idx, i)),
+        # the checks on np.diff only give adjacent order; every entry is below the last one by induction
+        ("induct_down", "le-last", 0, Len(idx), lambda i: At(idx, i) <= At(idx, Len(idx) - 1)),
         ("assert", "range-same-length", Len(r) == Len(idx)),
     ]
 
